@@ -233,5 +233,8 @@ var c08History = probe.Define("C08", "history", func(t *rapid.T) c08In {
 
 func TestC08(t *testing.T) {
 	c := probe.NewCtx(t, "C08")
+	if c.Shard == 0 {
+		endurance(c, "C08", "child-keys", 2300)
+	}
 	c08History.Run(c, t, c.N(500, 5000))
 }
